@@ -78,6 +78,16 @@ func init() {
 		Rules: []func(*Prog, *Result){ruleC14, ruleC14Decode, ruleC07Encode("C14.validate"), ruleC04Normalised("C14.inverse")},
 	})
 	register(PropSpec{
+		ID:    "C18",
+		Title: "With a root directory set, nothing outside it is ever read",
+		Rules: []func(*Prog, *Result){ruleC18Read, ruleC18Probe, ruleC18Root, ruleBklMainRoot},
+	})
+	register(PropSpec{
+		ID:    "C20",
+		Title: "bklb/kubectl-bkl rewrite only file arguments; all else passes through",
+		Rules: []func(*Prog, *Result){ruleC20},
+	})
+	register(PropSpec{
 		ID:    "C09",
 		Title: "Evaluation is deterministic",
 		Rules: []func(*Prog, *Result){ruleMapRanges, ruleSortedMap, ruleGlobals, ruleNondetSources},
@@ -100,6 +110,6 @@ func init() {
 			"trees handed to the structural recursions are acyclic (decoders build trees; the ownership rules of C09/C10 forbid merging a tree into itself)",
 			"Document.Parents is acyclic unless the API is misused by merging a *Document into itself",
 		},
-		Rules: []func(*Prog, *Result){rulePanic, ruleRecursion},
+		Rules: []func(*Prog, *Result){rulePanic, ruleRecursion, ruleCLIExit, ruleDroppedErrors},
 	})
 }
